@@ -55,6 +55,7 @@ func (st *sStream) classify(nr *netReq) (kind string, seg *sSeg) {
 
 // oracleC11 replays the statement's rule over the request log and the playlist states served.
 func oracleC11(r *Run, w *cliWorld, o *stubOrigin) {
+	anyStop := false
 	for si, st := range o.streams {
 		// requests of this stream in the order the client issued them
 		type ev struct {
@@ -66,7 +67,7 @@ func oracleC11(r *Run, w *cliWorld, o *stubOrigin) {
 		for _, nr := range w.net.log {
 			if k, sg := st.classify(nr); k != "" {
 				evs = append(evs, ev{k, sg, nr})
-			} else if u := nr.req.URL; strings.Contains(u.Path, "/"+st.name+"_") || strings.HasSuffix(u.Path, "/"+st.name+"_all.mp4") || strings.HasSuffix(u.Path, "/"+st.name+"_all.ts") {
+			} else if u := nr.req.URL; strings.Contains(u.Path, "/"+st.name+"_") {
 				// a request that targets this stream's media but matches no advertised URL/range
 				r.Fail("request", "unadvertised", "stream %s: the client requested %s (Range %q), which no playlist advertised", st.name, nr.url, nr.rng)
 				return
@@ -128,6 +129,15 @@ func oracleC11(r *Run, w *cliWorld, o *stubOrigin) {
 				}
 				cur = next
 			case "init":
+				wantRng := ""
+				if st.initBR != 0 {
+					wantRng = fmt.Sprintf("bytes=%d-%d", st.initOff, st.initOff+uint64(len(st.init))-1)
+					r.Probe("init-byte-range-checked")
+				}
+				if e.nr.rng != wantRng {
+					r.Fail("range", "init", "stream %s: the init section was requested with Range %q, EXT-X-MAP prescribes %q", st.name, e.nr.rng, wantRng)
+					return
+				}
 				initSeen++
 				if initSeen > 1 {
 					r.Fail("init", "repeated", "stream %s: the init segment was requested %d times", st.name, initSeen)
@@ -176,6 +186,9 @@ func oracleC11(r *Run, w *cliWorld, o *stubOrigin) {
 			}
 		}
 		r.Cell("c11 stream%d mode=%s end=%s", min(si, 1), st.mode, expectErr)
+		if expectErr != "" && expectErr != "eos" {
+			anyStop = true
+		}
 		// the final outcome
 		if si == 0 && w.waitSeen {
 			switch {
@@ -192,6 +205,12 @@ func oracleC11(r *Run, w *cliWorld, o *stubOrigin) {
 			r.Fail("outcome", expectErr+"-no-error", "stream %s: the playlist history must stop the client (%s) but Wait yielded nothing", st.name, expectErr)
 			return
 		}
+	}
+	// no stream's playlist history calls for a stop, the network is fault-free: the client must still be running or
+	// have ended with ErrClientEOS
+	if w.waitSeen && w.waitErr != nil && !errors.Is(w.waitErr, gohlslib.ErrClientEOS) && !anyStop {
+		r.Fail("outcome", "unexpected-stop", "no playlist state served calls for a stop and no fault was injected, but Wait yielded %s", describeErr(w.waitErr))
+		return
 	}
 	// ErrClientEOS exactly when every stream delivered the last ENDLIST segment
 	allEOS := true
